@@ -65,9 +65,12 @@ def run(ctx):
 
     completions, pollers = [], []
     for name, f in F.fns.items():
-        for bb, t in f.calls_to("std::sync::atomic::Atomic::<bool>::store"):
-            if is_field_of(f.op_origin(t["args"][0]), FLAG) and F.adts.get(hname) and hname.split("::")[-1] in f.locals[1]["ty"]:
-                completions.append((f, bb, t))
+        # a store of the flag, or a read-modify-write that sets it (swap / fetch_or / compare_exchange used as a "first
+        # completion wins" claim): the flag is visible to a poll from that instruction on, exactly as with a store
+        for meth, vi, oi in (("store", 1, 2), ("swap", 1, 2), ("fetch_or", 1, 2), ("compare_exchange", 2, 3), ("compare_exchange_weak", 2, 3)):
+            for bb, t in f.calls_to("std::sync::atomic::Atomic::<bool>::" + meth):
+                if t["callee"].endswith("::" + meth) and is_field_of(f.op_origin(t["args"][0]), FLAG) and F.adts.get(hname) and hname.split("::")[-1] in f.locals[1]["ty"]:
+                    completions.append((f, bb, dict(t, args=[t["args"][0], t["args"][vi], t["args"][oi]])))
         for bb, t in f.calls_to("std::sync::atomic::Atomic::<bool>::load"):
             if is_field_of(f.op_origin(t["args"][0]), FLAG) and hname.split("::")[-1] in f.locals[1]["ty"]:
                 pollers.append((f, bb, t))
